@@ -112,15 +112,6 @@ def real_stream(drv, cfg, frames):
     return bs
 
 
-def rx_frame(lines, pts):
-    """a sent frame as the demultiplexer returns it (ids canonical, WSS with the two reserved bits)"""
-    out = []
-    for ln in lines:
-        if ln["id"] == RAW:
-            continue
-        sid = TTX if ln["id"] in (1, 2, 3) else CC if ln["id"] == 24 else ln["id"]
-        d = list(ln["data"][:PAYLEN[sid]])
-        if sid == WSS:
-            d[1] = (d[1] & 0x3F) | 0xC0
-        out.append(dict(line=ln["line"], id=sid, data=d))
-    return dict(pts=[pts[0] & 7, pts[1]], lines=out)
+def sent_frame(lines, pts):
+    """a frame as given to the multiplexer (the trace specs normalise ids / reserved bits themselves)"""
+    return dict(pts=list(pts), lines=[dict(line=l["line"], id=l["id"], data=list(l["data"])) for l in lines if l["id"] != RAW])
